@@ -7,6 +7,18 @@ import vlib, dxlib, gadata
 
 WINDOW_MODES = {4, 5, 6, 8, 10, 13, 14, 15, 16, 19}
 MDL = {'label': 'e-', 'rank': 0, 'phi': 0.0, 'theta': 90.0, 'aperture': 5.0}
+MDL_DEFAULT = {'label': 'all', 'rank': -1, 'phi': 0.0, 'theta': 0.0, 'aperture': 0.0}   # --help: the documented defaults
+# which --pgop-mdl-* options a line gives: each of them alone must switch the operation on (README/--help describe them as
+# independent options with defaults)
+MDL_SUBSETS = {True: ('label', 'rank', 'phi', 'theta', 'aperture'), 'particle': ('label',), 'particle+aperture': ('label', 'aperture'), 'rank+particle': ('rank', 'label')}
+MDL_FLAG = {'label': '--pgop-mdl-particle', 'rank': '--pgop-mdl-rank', 'phi': '--pgop-mdl-cone-phi', 'theta': '--pgop-mdl-cone-theta', 'aperture': '--pgop-mdl-cone-aperture'}
+
+
+def mdl_effective(mdl):
+    eff = dict(MDL_DEFAULT)
+    for k in MDL_SUBSETS[mdl]:
+        eff[k] = MDL[k]
+    return eff
 
 
 class Line:
@@ -28,8 +40,8 @@ class Line:
         if self.emax is not None: a += ['-E', repr(self.emax)]
         if self.activity is not None: a += ['-a', repr(self.activity)]
         if self.mdl:
-            a += ['--pgop-mdl-particle', MDL['label'], '--pgop-mdl-rank', str(MDL['rank']), '--pgop-mdl-cone-phi', repr(MDL['phi']),
-                  '--pgop-mdl-cone-theta', repr(MDL['theta']), '--pgop-mdl-cone-aperture', repr(MDL['aperture'])]
+            for k in MDL_SUBSETS[self.mdl]:
+                a += [MDL_FLAG[k], MDL[k] if k == 'label' else (str(MDL[k]) if k == 'rank' else repr(MDL[k]))]
         if self.raw: a += self.raw
         if basename is not None: a += [basename]
         return a
@@ -40,7 +52,7 @@ class Line:
         if self.emin is not None or self.emax is not None: s += ':w%s-%s' % (self.emin, self.emax)
         s += ':s%s:n%s' % (self.seed, self.count)
         if self.activity is not None: s += ':a%g' % self.activity
-        if self.mdl: s += ':mdl'
+        if self.mdl: s += ':mdl' + ('' if self.mdl is True else '(' + self.mdl + ')')
         if self.tag: s += ':' + self.tag
         return s
 
@@ -77,6 +89,10 @@ def lines(tier):
         if win == 'emax': emax = 1.5
         if q and k % 3 != vlib.SEED % 3: continue
         out.append(Line('dbd', name, level=level, mode=mode, emin=emin, emax=emax, seed=seed, count=3, activity=(10.0 if k % 5 == 0 else None), mdl=(k % 7 == 0)))
+    # each MDL option (or a few of them) alone
+    for sub in ('particle', 'particle+aperture', 'rank+particle'):
+        out.append(Line('background', 'Co60', seed=5, count=3, mdl=sub))
+        out.append(Line('dbd', 'Mo100', level=0, mode=1, seed=5, count=3, mdl=sub))
     # refused lines
     out += [
         Line('background', 'Xx99', tag='unknown-nuclide'), Line('background', 'Mo100', tag='nuclide-of-other-category'), Line('dbd', 'Co60', level=0, mode=1, tag='nuclide-of-other-category'),
@@ -158,8 +174,9 @@ def run(tier, rep):
     def expected(line):
         a = [api, line.category or 'none', line.nuclide or '', str(line.level if line.level is not None else 0), str(line.mode if line.mode is not None else 0),
              repr(line.emin) if line.emin is not None else 'nan', repr(line.emax) if line.emax is not None else 'nan', str(line.seed if line.seed is not None else 314159),
-             str(line.count if line.count is not None else 1), repr(line.activity) if line.activity is not None else 'nan', '1' if line.mdl else '0',
-             MDL['label'], str(MDL['rank']), repr(MDL['phi']), repr(MDL['theta']), repr(MDL['aperture'])]
+             str(line.count if line.count is not None else 1), repr(line.activity) if line.activity is not None else 'nan', '1' if line.mdl else '0']
+        eff = mdl_effective(line.mdl) if line.mdl else MDL
+        a += [eff['label'], str(eff['rank']), repr(eff['phi']), repr(eff['theta']), repr(eff['aperture'])]
         r = subprocess.run(a, env=env, stdout=subprocess.PIPE, stderr=subprocess.DEVNULL, text=True, timeout=300)
         if r.returncode == 3 or r.stdout.startswith('REFUSED'):
             return None, r.stdout.strip()
@@ -211,7 +228,8 @@ def run(tier, rep):
             want['dbd-daughter-level'] = str(line.level if line.level is not None else 0)
             want['dbd-mode'] = str(line.mode)
         if line.mdl:
-            want.update({'pgops': 'mdl', 'mdl.particle_label': MDL['label'], 'mdl.target_particle_rank': str(MDL['rank'])})
+            eff = mdl_effective(line.mdl)
+            want.update({'pgops': 'mdl', 'mdl.particle_label': eff['label'], 'mdl.target_particle_rank': str(eff['rank'])})
         for a, b in want.items():
             if kv.get(a) != b:
                 out.append((k + ':companion:' + a, '%s: companion file reports %s=%s, effective setting is %s' % (' '.join(line.argv('<base>')), a, kv.get(a), b)))
@@ -237,6 +255,33 @@ def run(tier, rep):
             rep.violation(kk, text)
         if len(samples) < 4 and kind == 'accepted':
             samples.append(' '.join(line.argv('<base>')))
+    # ---- a run that is refused after a successful run on the SAME basename (refused by the generator at initialisation,
+    #      i.e. after the command line itself was accepted): whatever is left must not claim completeness for what is not there
+    rr = 0
+    first = Line('background', 'Co60', seed=3, count=5)
+    for second in (Line('dbd', 'Mo100', level=9, mode=4, seed=3, count=5, tag='level-out-of-range'), Line('dbd', 'Mo100', level=0, mode=4, emin=2.0, emax=1.0, seed=3, count=5, tag='inverted-window'),
+                   Line('dbd', 'Mo100', level=1, mode=1, seed=3, count=5, tag='mode-spin-mismatch'), Line('dbd', 'Zr96', level=1, mode=20, seed=3, count=5, tag='4b-excited')):
+        wd = os.path.join(work, 'rr%d' % rr)
+        os.makedirs(wd, exist_ok=True)
+        rr += 1
+        rc1, t1, c1, e1 = run_cli(exe, first, wd, 'same', env)
+        if rc1 != 0:
+            rep.violation('rerun:first-run-failed', 'the first run %s failed' % ' '.join(first.argv('<base>')))
+            continue
+        b = os.path.join(wd, 'same')
+        r2 = subprocess.run([exe] + second.argv(b), env=env, stdout=subprocess.PIPE, stderr=subprocess.PIPE, text=True, timeout=120, cwd=wd, errors='replace')
+        t2 = open(b + '.d0t', errors='replace').read() if os.path.exists(b + '.d0t') else None
+        c2 = open(b + '.d0c', errors='replace').read() if os.path.exists(b + '.d0c') else None
+        marker = c2 is not None and re.search(r'^@status=0\s*$', c2, re.M) is not None
+        n2, clean2 = records(t2)
+        m = re.search(r'^nb-events=(\d+)', c2 or '', re.M)
+        claimed = int(m.group(1)) if m else None
+        if r2.returncode == 0:
+            rep.violation('rerun:%s:not-refused' % second.tag, 'second run %s must be refused but exits 0' % ' '.join(second.argv('<base>')))
+        if marker and (claimed is None or n2 != claimed or not clean2):
+            rep.violation('rerun:%s:stale-marker' % second.tag, 'after a successful run and then the refused run %s on the same basename the companion file carries @status=0 with nb-events=%s while '
+                          'the event file holds %d complete record(s)' % (' '.join(second.argv('<base>')), claimed, n2))
+        stats['refused'] += 1
     # ---- kill points
     kl = [Line('background', 'Co60', seed=7, count=25 if tier == 'quick' else 300), Line('dbd', 'Mo100', level=0, mode=1, seed=7, count=25 if tier == 'quick' else 120, activity=5.0),
           Line('background', 'Bi214+Po214', seed=11, count=25 if tier == 'quick' else 120, mdl=True)]
@@ -296,7 +341,7 @@ def run(tier, rep):
         'rule': 'command lines: product over category x nuclides x level x mode x window {none, both, only -e, only -E} x seed x count x activity x MDL options (sub-sampled in the '
                 'quick tier by a fixed stride) plus 23 lines that must be refused; each line is run twice on the binary built from /repo (byte-identical event files), its records '
                 'are counted and numbered, compared byte for byte with an in-process recomputation through decay0_generator + std::default_random_engine(seed) (activity delays drawn '
-                'from the same engine), and the companion file is compared with the effective settings; refused lines must leave no record and no completion marker. Kill points: '
+                'from the same engine), and the companion file is compared with the effective settings; refused lines must leave no record and no completion marker, also when they re-use the basename of an earlier successful run; each MDL option alone switches the operation on with the documented defaults for the others. Kill points: '
                 'for each of %d command lines EVERY write()/writev() to the two files is numbered through an LD_PRELOAD shim and the run is repeated killing the process before write k, '
                 'and with write k torn after 1 byte and after half its buffer; invariant: @status=0 present => event file identical to the complete one; what is left is a prefix' % len(kl),
     })
